@@ -583,6 +583,16 @@ def c09_deadline(tier, seed):
 # ---------------------------------------------------------------------------
 # C07: printed seed reproduces; fixed seed fixes the run
 
+def t_compete():
+    """n in 2..3, then n values in 0..3; fails for n=3 with v0=1, v1+v2=3 and for n=2 with v0+v1=3, v0>v1."""
+    fail = [op("fatalf", site=1)]
+    three = [draw(IntRange(0, 3), "v", "v0"), draw(IntRange(0, 3), "v", "v1"), draw(IntRange(0, 3), "v", "v2"),
+             iff("v0", "eq", 1, [iff("v1", "eq", a, [iff("v2", "eq", 3 - a, fail)]) for a in range(4)])]
+    two = [draw(IntRange(0, 3), "v", "v0"), draw(IntRange(0, 3), "v", "v1"),
+           iff("v0", "eq", 2, [iff("v1", "eq", 1, fail)]), iff("v0", "eq", 3, [iff("v1", "eq", 0, fail)])]
+    return [draw(IntRange(2, 3), "n", "n"), iff("n", "eq", 3, three, two)]
+
+
 def c07(tier, seed):
     rng = random.Random(seed)
     out = []
@@ -639,6 +649,11 @@ def c07(tier, seed):
         out.append(scenario("c07-sm2-%d" % sd, {"body": t_sm2()}, {"checks": 100, "seed": sd, "nofailfile": "true"},
                             runs=[{}, {"expect": "same_run"}, {"expect": "same_run", "freshProc": True}, {"seedPrev": True, "expect": "seed_prev", "expectRun": 1}],
                             tag={"template": "sm2"}))
+    # (c') a property on which two of the minimizer's expensive passes compete (swapping two draws / dropping a draw and lowering the count: each makes
+    # the other impossible): the minimized test case still is the same one every time the same seed is used
+    for k, sd in enumerate(seeds(rng, 10 if tier == "quick" else 100)):
+        out.append(scenario("c07-compete-%d-%d" % (k, sd), {"body": t_compete()}, {"checks": 100, "seed": sd, "nofailfile": "true"},
+                            runs=[{}] + [{"expect": "same_run"}] * 5, tag={"template": "competing passes"}))
     # (e) a failure replayed from a fail file: if its message prints a seed, that seed must reproduce the (minimized) case it shows
     for sd in seeds(rng, max(3, n // 2)):
         tn = rng.choice(["threshold", "distinct", "map", "multisite"])
